@@ -145,7 +145,7 @@ func checkC09(env *Env) []Violation {
 		for _, e := range env.Log.Events {
 			switch e.Kind {
 			case EvAllocC, EvAllocG, EvAllocT, EvAllocH:
-				if env.isInternal(e.Name) {
+				if env.isInternalID(e.Name, e.Tags) {
 					continue
 				}
 				k := e.Kind + "|" + idKey(e.Name, e.Tags)
